@@ -137,7 +137,7 @@ struct ScriptedDirection {
         AcceleratorParams accelerator = {};
         DirectionParams direction     = {};
     };
-    std::vector<int> script; // per apply(): 0 fail, 1 q=p, 2 q=3p, 3 ascent 10∇ψ, 4 huge 1e8 p, 5 NaN, 6 pseudo-random, 7 q=-γ∇ψ... 8 zero
+    std::vector<int> script; // per apply(): 0 fail, 1 q=p, 2 q=3p, 3 ascent 10∇ψ, 4 huge 1e8 p, 5 NaN, 6 pseudo-random, 7 q=-γ∇ψ... 8 zero, 9 q=1e200p
     bool initial = false;
     mutable size_t pos   = 0;
     mutable unsigned lcg = 12345;
@@ -164,6 +164,7 @@ struct ScriptedDirection {
                 }
                 return true;
             case 7: q = -γ * grad; return true;
+            case 9: q = 1e200 * p; return true; // (added for PANOC whole-run check) overflow: ψ at the candidate is inf/NaN
             default: q.setZero(); return true;
         }
     }
